@@ -402,8 +402,11 @@ Judge_supergates(e) ==
      \cup UNION { LET sg == L[j]  tag == "@" \o ToString(j) IN
                   (IF WellFormedRec(sg) THEN {} ELSE {"MACHINERY:malformed_record"})
                   \cup (IF Cardinality(Outputs(sg)) = 1 THEN {} ELSE {"not_single_output" \o tag})
-                  \cup (IF NameSet(sg) \subseteq NameSet(c) THEN {} ELSE {"node_not_in_circuit" \o tag})
-                  \cup (IF ~(NameSet(sg) \subseteq NameSet(c)) THEN {} ELSE
+                  \cup (IF MaxGateFanin(sg) <= 2 THEN {} ELSE {"gate_with_more_than_two_operands" \o tag})
+                  \cup (IF e.wide \/ NameSet(sg) \subseteq NameSet(c) THEN {} ELSE {"node_not_in_circuit" \o tag})
+                  \* e.wide: c has gates with more than two operands, the blocks are sub-circuits of limit_fanin(c, 2), which is
+                  \* not recorded: only the clauses that can be stated on c itself are judged (cover, order, composition)
+                  \cup (IF e.wide \/ ~(NameSet(sg) \subseteq NameSet(c)) THEN {} ELSE
                         (IF EdgeNames(sg) = {ed \in EdgeNames(c) : ed[1] \in NameSet(sg) /\ ed[2] \in NameSet(sg)} THEN {}
                          ELSE {"wiring_not_induced" \o tag})
                         \cup {"internal_node_differs:" \o nm \o tag : nm \in {x \in SgInternal(sg) :
